@@ -1,3 +1,139 @@
-import NdnVerif.Driver.Common
--- stub: replaced by the C03 model driver
-def main : IO Unit := IO.println "DONE lines=0 histories=0 diffs=0 specs=0 skipped=0"
+import NdnVerif.C03.DriverLib
+open Ndn Ndn.Driver Ndn.C03 Ndn.C03.Text Ndn.C03.Drv
+
+structure St where
+  last : Option Mk := none
+  nbName : Option String := none     -- op argument of the last nb
+  cbComp : Option String := none     -- op argument of the last cb
+  blob : Option Bytes := none        -- the implementation's output of the last nb / cb
+
+def specRead (mk : Mk) (cuts : String) (got : String) (what : String) : List SpecFail :=
+  let got' := if mk.signed then got else stripCov got
+  (if isCrash got then [⟨"no-panic", what, s!"decoding crashed: {(tk got 160)}"⟩] else []) ++
+  (match mk.expectText with
+   | some e => if !isCrash got ∧ got' ≠ e then
+       [⟨"roundtrip", what ++ "-" ++ String.singleton mk.kind ++ "-" ++ (mk.signer.splitOn ":").head!,
+         s!"decode(encode) differs from the packet that was built (cuts {cuts}): want {(tk e 300)} got {(tk got' 300)}"⟩] else []
+   | none => []) ++
+  (match mk.refText with
+   | some ref => if cuts ≠ "c" ∧ !isCrash got ∧ got ≠ ref then
+       [⟨"segmentation", what, s!"segmented decode (cuts {cuts}) differs from contiguous decode"⟩] else []
+   | none => [])
+
+/-- model of harness allCuts -/
+def modelAllCuts (kind : Char) (w : Bytes) (two : Bool) : String :=
+  let ref := modelRead kind w "c"
+  let n := w.length
+  if !two then
+    if n > 600 then "skip-big" else
+    match (List.range n).find? (fun k => k ≥ 1 && modelRead kind w (toString k) != ref) with
+    | some k => s!"cut={k} {modelRead kind w (toString k)}"
+    | none => "all " ++ ref
+  else
+    if n > 200 then "skip-big" else
+    let pairs := (List.range n).flatMap fun a => (List.range n).filterMap fun c => if a ≥ 1 ∧ c > a then some (a, c) else none
+    match pairs.find? (fun (a, c) => modelRead kind w s!"{a},{c}" != ref) with
+    | some (a, c) => s!"cut={a},{c} {modelRead kind w s!"{a},{c}"}"
+    | none => "all " ++ ref
+
+def stepC03 (st : St) (op : String) (got : String) : StepResult St :=
+  let f := op.splitOn " "
+  match f with
+  | ["new"] => { st := {}, expected := some "ok" }
+  | "mkd" :: _ =>
+    let r := runMkd f got
+    { st := { st with last := r.built }, expected := some r.expected, spec := r.spec, cov := r.cov,
+      nontrivial := (r.built.map (·.nontrivial)).getD false }
+  | "mki" :: _ =>
+    let r := runMki f got
+    { st := { st with last := r.built }, expected := some r.expected, spec := r.spec, cov := r.cov,
+      nontrivial := (r.built.map (·.nontrivial)).getD false }
+  | ["rd", cuts] =>
+    match st.last with
+    | none => { st := st, expected := some "skip" }
+    | some mk =>
+      let mk' := if cuts == "c" ∧ !isCrash got then { mk with refText := some got } else mk
+      { st := { st with last := some mk' }, expected := some (modelRead mk.kind mk.w cuts),
+        spec := specRead mk cuts got (if cuts == "c" then "rd-contiguous" else "rd-segmented"),
+        cov := [if cuts == "c" then "rd-contiguous" else if cuts == "w" then "rd-wire1" else "rd-segmented"] }
+  | ["rp", cuts] =>
+    match st.last with
+    | none => { st := st, expected := some "skip" }
+    | some mk =>
+      { st := st, expected := some (modelRead 'P' mk.w cuts), spec := specRead mk cuts got "readpacket", cov := ["readpacket"] }
+  | [rdall] =>
+    if rdall == "rdall" || rdall == "rdall2" then
+      match st.last with
+      | none => { st := st, expected := some "skip" }
+      | some mk =>
+        let two := rdall == "rdall2"
+        let spec : List SpecFail :=
+          if got.startsWith "cut=" then
+            let rest := " ".intercalate ((got.splitOn " ").drop 1)
+            (if isCrash rest then [⟨"no-panic", "rd-segmented", s!"segmented decode crashed: {(tk got 200)}"⟩]
+             else [⟨"segmentation", "rd-segmented", s!"a segmented decode differs from the contiguous decode: {(tk got 200)}"⟩])
+          else match mk.expectText with
+            | some e =>
+              let g := (got.drop 4).toString
+              let g := if mk.signed then g else stripCov g
+              if got.startsWith "all " ∧ g ≠ e then [⟨"roundtrip", "rdall", "decode(encode) differs from the packet that was built"⟩] else []
+            | none => []
+        { st := st, expected := some (modelAllCuts mk.kind mk.w two), spec := spec, cov := [rdall] }
+    else if rdall == "nfb" then
+      match st.blob with
+      | none => { st := st, expected := some "skip" }
+      | some b =>
+        let m := match nameFromBytes b with | .ok n => Name.toText n | r => resText (r.bind fun _ => .ok "")
+        { st := st, expected := some m, cov := ["nfb"],
+          spec := (if isCrash got then [⟨"no-panic", "nfb", (tk got 160)⟩] else []) ++
+                  (match st.nbName with
+                   | some n => if !isCrash got ∧ got ≠ n then [⟨"name-codec", "nfb", s!"NameFromBytes(Name.Bytes(n)) = {(tk got 120)}, want {(tk n 120)}"⟩] else []
+                   | none => []) }
+    else if rdall == "cfb" then
+      match st.blob with
+      | none => { st := st, expected := some "skip" }
+      | some b =>
+        let m := match componentFromBytes b with | .ok c => c.toText | r => resText (r.bind fun _ => .ok "")
+        { st := st, expected := some m, cov := ["cfb"],
+          spec := (if isCrash got then [⟨"no-panic", "cfb", (tk got 160)⟩] else []) ++
+                  (match st.cbComp with
+                   | some c => if !isCrash got ∧ got ≠ c then [⟨"name-codec", "cfb", s!"ComponentFromBytes(c.Bytes()) = {(tk got 120)}, want {(tk c 120)}"⟩] else []
+                   | none => []) }
+    else { st := st, expected := some "bad-op" }
+  | ["rx", kind, hex, cuts] =>
+    match bytesOfHex hex with
+    | some b => { st := st, expected := some (modelRead (kind.toList.headD 'P') b cuts), cov := ["rx"],
+                  spec := if isCrash got then [⟨"no-panic", "rx", (tk got 160)⟩] else [] }
+    | none => { st := st, expected := some "bad-op" }
+  | ["nb", n] =>
+    match Name.ofText n with
+    | some name =>
+      let implB := bytesOfHex got
+      -- spec: same bytes as the NDN format prescribes, and the same bytes the packet encoder wrote
+      let inPacket : Option Bytes := match st.last with
+        | some mk => if mk.kind == 'D' then
+            (Spec.elements mk.w).bind fun (_, ts) => (Spec.findT ts 7).map fun t => (mk.w.drop t.off).take (t.hdr + t.val.length)
+          else none
+        | none => none
+      let spec : List SpecFail :=
+        (if isCrash got then [⟨"no-panic", "nb", (tk got 160)⟩] else []) ++
+        (if !isCrash got ∧ implB ≠ some (Spec.encName name) then [⟨"name-codec", "nb", "Name.Bytes differs from the NDN name encoding"⟩] else []) ++
+        (match inPacket with
+         | some pb => if !isCrash got ∧ implB ≠ some pb then [⟨"name-codec", "nb-vs-packet", "Name.Bytes differs from the Name TLV the packet encoder wrote for the same name"⟩] else []
+         | none => [])
+      { st := { st with nbName := some n, blob := implB, cbComp := none }, expected := some (hexOrDash (nameBytes name)), spec := spec,
+        cov := ["nb"] ++ (if nameLen name ≥ 253 then ["name-ge253"] else []) }
+    | none => { st := st, expected := some "bad-op" }
+  | ["cb", _k, c] =>
+    match Component.ofText c with
+    | some comp =>
+      let implB := bytesOfHex got
+      let spec : List SpecFail :=
+        (if isCrash got then [⟨"no-panic", "cb", (tk got 160)⟩] else []) ++
+        (if !isCrash got ∧ implB ≠ some (Spec.encComp comp) then [⟨"name-codec", "cb", "Component.Bytes differs from the NDN component encoding"⟩] else [])
+      { st := { st with cbComp := some c, blob := implB, nbName := none }, expected := some (hexOrDash (encComp comp)), spec := spec,
+        cov := ["cb"] ++ (if comp.val.length ≥ 253 then ["comp-ge253"] else []) }
+    | none => { st := st, expected := some "bad-op" }
+  | _ => { st := st, expected := some "bad-op" }
+
+def main : IO Unit := Ndn.Driver.run ({} : St) stepC03
